@@ -158,6 +158,7 @@ class ExplorerScriptSsbCompiler:
         self.source_map = None
         self.imports = []
         self.macros = {}
+        self.macro_resolution_order = []
         if original_base_file is None:
             original_base_file = file_name
 
